@@ -492,6 +492,7 @@ def run(tier):
              "non-trivial = a path with at least one decision on a configuration atom",
         bounds="K<=2 fields / <=2 variants; one field with all 20 atoms free (struct and enum-variant field), two fields with the free atoms of each restricted to one helper attribute; "
                "use_bounds=false (bound(..) plays no part in acceptance); inline depth<=14, <=14 visits per block",
-        outside="the attribute parser (structmeta / HelperAttributes::from_attrs parsing steps are opaque: the check starts from parsed entries); interactions needing >=3 fields; "
-                "rustc diagnostics text",
+        outside="structmeta's own token parsing (`parse_single` is a symbolic input of the parse-wiring obligations: which parse result lands in which slot, and that every argument is "
+                "copied into the entry, is decided; that structmeta reads the tokens as written is observed natively on the complete placement matrix, 120 expansions); interactions needing >=3 fields; "
+                "the wording of rustc diagnostics (which trait an error message names is compared natively with the trait whose impl is missing)",
         validated=validated + (placed if 'placed' in dir() else 0))
